@@ -101,6 +101,20 @@ XC == ColP(<<"x", "c">>)
 Renamed == {SelQ(<<Star>>, Derived(StarOrdered, "x"), None), SelQ(<<I(XC)>>, Derived(StarOrdered, "x"), CmpE(">", XC, LN(0))),
             [SelQ(<<I(XC)>>, Derived(StarOrdered, "x"), None) EXCEPT !.limit = 1],
             WithC(StarOrdered, SelQ(<<Star>>, C, None)), [WithC(StarOrdered, SelQ(<<I(Col("c"))>>, C, None)) EXCEPT !.limit = 1]}
+\* an outer join whose preserved side is a table without alias (its rows are the caller's own objects), on a condition
+\* the nested loop has to evaluate, with rows that find no partner
+UnaliasedOuter(ty) ==
+    [BaseQ EXCEPT !.from = [k |-> "join", type |-> ty, kw |-> "",
+                            l |-> IF ty = "left" THEN Table(<<"t">>, "") ELSE Table(<<"u">>, "y"),
+                            r |-> IF ty = "left" THEN Table(<<"u">>, "y") ELSE Table(<<"t">>, ""),
+                            on |-> AndE(CmpE("=", Col("a"), ColP(<<"y", "c">>)), CmpE("<", Col("g"), ColP(<<"y", "c">>)))]]
+\* a name defined by the outer WITH and, differently, by a WITH inside a derived table: the outer query goes on reading its own
+ShadowWith ==
+    [SelQ(<<I(ColP(<<"x", "a">>)), I(ColP(<<"y", "g">>))>>,
+          [k |-> "join", type |-> "inner", kw |-> "",
+           l |-> Derived([SelQ(<<Item(Col("c"), "a")>>, C, None) EXCEPT !.with = <<[name |-> "c", q |-> SelQ(<<I(Col("c"))>>, Table(<<"u">>, ""), None)]>>], "x"),
+           r |-> Table(<<"c">>, "y"), on |-> CmpE("=", ColP(<<"x", "a">>), ColP(<<"y", "a">>))],
+          None) EXCEPT !.with = <<[name |-> "c", q |-> SelQ(<<I(A), I(G)>>, T, None)]>>]
 NestedWith == [SelQ(<<I(A), I(G)>>, D, None) EXCEPT !.with = <<[name |-> "d", q |-> SelQ(<<I(A), I(G)>>, T, CmpE(">", A, LN(0)))]>>]
 UnionSideWith == [k |-> "union", all |-> TRUE, limit |-> -1, offset |-> -1, l |-> WithQ("c", "t", "a"), r |-> WithQ("d", "u", "c")]
 \* a CTE read twice: first through SELECT * ... ORDER BY (which must not reorder what the second read sees)
@@ -123,6 +137,8 @@ Cases ==
   \* a CTE whose body has a WITH of its own, read twice (the memo must land where the second reference looks);
   \* a UNION whose sides carry their own WITH (there is no WITH in front of the UNION to replace them)
   \cup {[fam |-> "derived", q |-> r] : r \in Renamed}
+  \cup {[fam |-> "sibling", q |-> UnaliasedOuter(ty)] : ty \in {"left", "right"}}
+  \cup {[fam |-> "sibling", q |-> ShadowWith]}
   \cup {[fam |-> "twice", q |-> Twice(NestedWith)], [fam |-> "twice", q |-> TwiceAliased(NestedWith)], [fam |-> "sibling", q |-> UnionSideWith],
         [fam |-> "sibling", q |-> [UnionSideWith EXCEPT !.all = FALSE]]}
 
